@@ -424,7 +424,22 @@ class _SymMixin:
 
     # -- leak guard: C-level consumers must never see the machine value ---------------
     def __hash__(self) -> int:  # type: ignore[override]
-        raise NotEncodable("hash() of a symbolic number")
+        """Solver-driven concretisation: library code that hashes a magnitude (a dict or an
+        lru_cache keyed by value) pins the value to one the path condition allows; the pin joins
+        the path condition, so everything proved on this path is proved for that value only
+        (recorded in `Ctx.concretised`)."""
+        c = ctx()
+        if not getattr(c, "allow_concretise", True):
+            raise NotEncodable("hash() of a symbolic number")
+        cands = [4, 9, 2, 1, 0, -4, 16, 3]
+        for v in cands:
+            if c.check(self.t == v) == "sat":
+                c.assume(self.t == v)
+                c.__dict__.setdefault("concretised", []).append((str(self.t), v))
+                c.stubs_used.add("hash(magnitude): solver-driven concretisation of the value")
+                py = {"int": int(v), "float": float(v), "dec": Decimal(v)}[self._kind]
+                return hash(py)
+        raise NotEncodable("hash() of a symbolic number: no small value is consistent with the path")
 
     def __str__(self) -> str:
         raise NotEncodable("str() of a symbolic number")
